@@ -16,7 +16,7 @@ Definition wf (st : lexer) : Prop :=
 (* a fresh non-EOF token was produced from [st] (whose queue was empty) *)
 Definition fresh_ok (st : lexer) (t : token) (st' : lexer) : Prop :=
   (nu st' < nu st)%nat /\ typed t /\ iseof st' = iseof st /\ eoftok st' = eoftok st /\
-  (peeks st' = [] \/ exists a b, peeks st' = [a; b] /\ typed a /\ typed b).
+  (peeks st' = [] \/ (ch st = 123 /\ exists a b, peeks st' = [a; b] /\ typed a /\ typed b)).
 
 Lemma finish_nu t st1 :
   exists st', finish t st1 = OK (t, st') /\ le_st st' st1 /\ (ch st1 <> 0 -> (nu st' < nu st1)%nat).
@@ -195,10 +195,10 @@ Lemma push_tokens_nu st ts : nu (push_tokens st ts) = nu st.
 Proof. reflexivity. Qed.
 
 Lemma lex_brace_ok n st ln i :
-  (nu st < n)%nat -> ch st <> 0 -> peeks st = [] ->
+  (nu st < n)%nat -> ch st = 123 -> peeks st = [] ->
   exists t st', lex_brace n st ln i = OK (t, st') /\ fresh_ok st t st'.
 Proof.
-  intros Hn Hc Hp. unfold lex_brace.
+  intros Hn H123 Hp. assert (Hc : ch st <> 0) by (rewrite H123; discriminate). unfold lex_brace.
   destruct (peek_until st) as [d|] eqn:P.
   2:{ edestruct same_fresh as (st' & F & K); [exact Hc| |exact Hp|eauto]. ty. }
   unfold peek_until in P. apply scan_delim_nonempty in P.
@@ -230,7 +230,7 @@ Proof.
   - unfold st3 in Ln'. rewrite push_tokens_nu in Ln'. lia.
   - unfold st3, push_tokens, set_peeks in C1, C2, C3. cbn [peeks iseof eoftok] in C1, C2, C3.
     repeat split; try congruence.
-    right. rewrite C1, B1, A1, Hp. cbn [app].
+    right. split; [exact H123|]. rewrite C1, B1, A1, Hp. cbn [app].
     eexists _, _. split; [reflexivity|]. split; ty.
 Qed.
 
@@ -345,22 +345,24 @@ Ltac branch H :=
 
 Lemma lex_char_ok n st :
   (nu st < n)%nat -> peeks st = [] -> wf st ->
-  exists t st', lex_char n st = OK (t, st') /\ (eof_ok st t st' \/ fresh_ok st t st').
+  exists t st', lex_char n st = OK (t, st') /\
+                ((ch st = 0 /\ eof_ok st t st') \/ (ch st <> 0 /\ fresh_ok st t st')).
 Proof.
   intros Hn Hp W. unfold lex_char.
-  assert (NZ : forall k, ch st = k -> k <> 0 -> ch st <> 0) by (intros; congruence).
+  Ltac nzc := match goal with E : ch ?st = ?k |- ch ?st <> 0 => rewrite E; discriminate end.
   Ltac fresh_by tac :=
     match goal with
-    | |- exists t st', ?e = OK (t, st') /\ (_ \/ fresh_ok ?s0 t st') =>
+    | |- exists t st', ?e = OK (t, st') /\ (_ \/ (_ /\ fresh_ok ?s0 t st')) =>
       let H := fresh in
       assert (H : exists t st', e = OK (t, st') /\ fresh_ok s0 t st') by tac;
-      destruct H as (?t & ?st' & ?F & ?K); eauto
+      let t0 := fresh "t" in let s1 := fresh "st'" in let F := fresh "F" in let K := fresh "K" in
+      destruct H as (t0 & s1 & F & K);
+      exists t0, s1; split; [exact F|right; split; [first [nzc|assumption]|exact K]]
     end.
-  Ltac nzc := match goal with E : ch ?st = ?k |- ch ?st <> 0 => rewrite E; discriminate end.
   Ltac tyc := vm_compute; reflexivity.
   branch E. { fresh_by ltac:(apply op_eq_ok; [nzc|assumption|tyc|tyc]). }
   clear E. branch E. { fresh_by ltac:(apply op_eq_ok; [nzc|assumption|tyc|tyc]). }
-  clear E. branch E. { fresh_by ltac:(apply lex_brace_ok; [assumption|nzc|assumption]). }
+  clear E. branch E. { fresh_by ltac:(apply lex_brace_ok; [assumption|assumption|assumption]). }
   clear E. branch E. { fresh_by ltac:(apply single_ok; [nzc|assumption|tyc]). }
   clear E. branch E. { fresh_by ltac:(apply single_ok; [nzc|assumption|tyc]). }
   clear E. branch E. { fresh_by ltac:(apply single_ok; [nzc|assumption|tyc]). }
@@ -384,7 +386,8 @@ Proof.
   clear E. branch E. { fresh_by ltac:(apply lex_bang_ok; [nzc|assumption]). }
   clear E. branch E. { fresh_by ltac:(apply op_eq_ok; [nzc|assumption|tyc|tyc]). }
   clear E. branch Ez.
-  { destruct (lex_eof_ok st (line st) (idx st) W) as (t & st' & F & K). eauto. }
+  { destruct (lex_eof_ok st (line st) (idx st) W) as (t & st' & F & K).
+    exists t, st'. split; [exact F|]. left. split; assumption. }
   branch E. { fresh_by ltac:(apply single_ok; [nzc|assumption|tyc]). }
   fresh_by ltac:(apply lex_default_ok; assumption).
 Qed.
@@ -395,7 +398,7 @@ Definition mu (st : lexer) : nat := (3 * nu st + length (peeks st))%nat.
 Lemma fresh_wf st t st' : wf st -> fresh_ok st t st' -> wf st'.
 Proof.
   intros [W1 W2] (_ & _ & E1 & E2 & P). unfold wf. rewrite E1, E2. split; [|exact W2].
-  destruct P as [->|(a & b & -> & Ta & Tb)]; auto.
+  destruct P as [->|(_ & a & b & -> & Ta & Tb)]; auto.
 Qed.
 
 Lemma next_token_ok n st :
@@ -410,13 +413,13 @@ Proof.
     assert (P1 : peeks st1 = []) by congruence.
     destruct (lex_char_ok n st1) as (t & st' & F & K); [lia|exact P1|exact W1|].
     exists t, st'. split; [exact F|].
-    destruct K as [(E & T & N1 & Pk & W')|K].
+    destruct K as [(_ & E & T & N1 & Pk & W')|(_ & K)].
     + split; [exact T|]. split; [exact W'|]. split; [lia|]. left. exact E.
     + pose proof (fresh_wf _ _ _ W1 K) as W'.
       destruct K as (N1 & T & _ & _ & Pk).
       split; [exact T|]. split; [exact W'|]. split; [lia|].
       right. unfold mu. rewrite P. cbn [length].
-      destruct Pk as [->|(a & b & -> & _)]; cbn [length]; lia.
+      destruct Pk as [->|(_ & a & b & -> & _)]; cbn [length]; lia.
   - exists t, (set_peeks st ps). split; [reflexivity|].
     destruct W as [W1 W2]. rewrite P in W1. inversion W1; subst.
     split; [assumption|]. split; [split; assumption|]. split; [apply Nat.le_refl|].
